@@ -30,7 +30,7 @@ CLAIMED = {
                 text="Sequential: all histories of single-shot and multishot pool reads/receives, completions with and without buffers, -ENOBUFS, drops of operations in flight, and drops of the handed-out ReadBufs for pool sizes 1,2,4, buffer sizes 1 and 8, with the 16-bit ring tail starting at 0 and just below 2^16 (wrap inside the history); after every action the buffer ids offered in the kernel's ring, selected for undelivered completions and owned by live ReadBufs must partition the pool, ring entries must describe their buffer, and ReadBuf contents must be what the kernel wrote. Threads: 2-3 threads dropping ReadBufs concurrently (optionally while the kernel keeps selecting buffers), all schedules up to the preemption bound.",
                 ref="6/C08", engine="seqx+schx"),
     "C09": dict(technique=SEQ + " over fault sequences (EINTR/ECANCELED)^k followed by every final outcome",
-                text="For each of ~45 operation shapes: every sequence of EINTR/ECANCELED completions followed by every final outcome; the re-issued submission must be byte-identical (same user_data, same addresses), the caller must observe only the last attempt's result (reference model), and no cancel request may be emitted.",
+                text="For each of ~45 operation shapes: also a kernel error (EIO) as the answer to any request; every sequence of EINTR/ECANCELED completions followed by every final outcome; the re-issued submission must be byte-identical (same user_data, same addresses), the caller must observe only the last attempt's result (reference model), and no cancel request may be emitted.",
                 ref="6/C09"),
     "C10": dict(technique="explicit-state exploration over every sequence of kernel answers (short transfer sizes incl. 0) for each composite I/O case on the real code (seqx); byte-stream reference oracle",
                 text="For write_all/write_all_vectored/send_all/send_all_vectored (plain, extract, positional, flags, zero-copy) over every buffer shape with 1-3 (thorough 1-4, plus 5 and 8) buffers of length 0-2 (0-3) incl. empty buffers in every position, and for read_n/read_n_vectored/recv_n/recv_n_vectored over Vec, pre-filled Vec, LimitedBuf and pool ReadBuf targets and every n: every sequence of accepted/delivered counts the kernel may answer is executed; each request must offer exactly the bytes not yet written at the right offset with the caller's flags and opcode, success only after everything, WriteZero/UnexpectedEof exactly when the kernel answers 0.",
@@ -42,11 +42,11 @@ CLAIMED = {
                 text="~140 scenarios (queue sizes 8, 2 and 1; operations not started / queued / in flight / abandoned / finished-unpolled / mid-stream, queue clone, regular and direct AsyncFd, pool, owned and unassigned ReadBuf; kernel cancelling everything, failing to cancel, cancelling nothing) x every permutation of dropping those objects that safe Rust admits; checked: no panic/crash, no use of freed memory, the three ring mappings unmapped exactly once with their original lengths before the ring fd is closed, queued clean-up requests submitted, every descriptor closed once, no allocation left.",
                 ref="6/C12"),
     "C13": dict(technique="bounded exhaustive enumeration: submissions decoded by a simulated kernel compared with an io_uring ABI table and regular-vs-direct differential, plus differential execution against the real kernel with libc as oracle (casex)",
-                text="Part A (simulated kernel): 43 operation shapes each issued on a regular and on a direct descriptor; every field of the two submissions must agree except the descriptor field/flag, and must equal an independent ABI table; builder settings made before the first poll (offsets incl. 2^40 and 2^64-2, every send/recv flag, open options x mode x kind, advice, allocate mode, truncate length, shutdown mode ...) must be reflected. Part B (real kernel): 16 scenarios x {regular, direct}: the a10 call on a real ring and the libc call on an identical fixture are compared on result/errno, bytes at offsets, file position, stat fields, addresses and option values.",
+                text="Part A (simulated kernel): 43 operation shapes, the second submission of every composite operation after a short first result (flags, zero-copy, advanced offsets), builder settings of splice, send_to, recv_from_vectored, multishot_recv, pipe, the statx mask and waitid options; each issued on a regular and on a direct descriptor; every field of the two submissions must agree except the descriptor field/flag, and must equal an independent ABI table; builder settings made before the first poll (offsets incl. 2^40 and 2^64-2, every send/recv flag, open options x mode x kind, advice, allocate mode, truncate length, shutdown mode ...) must be reflected. Part B (real kernel): 24 scenario families x {regular, direct} (read/write/vectored at every offset x length, open options, path operations, statx with every Metadata accessor on every descriptor type, truncate/allocate modes/advise/madvise/fsync, pool reads, TCP/UDP/Unix sockets with names, every socket option type, recv flags and the composite read_n/recv_n/write_all/send_all families against slow peers, multishot accept/recv/read, pipes, splice, waitid with every WaitInfo accessor, limited buffers, the sync_* helpers, process signals through Signals, descriptor conversions): the a10 call on a real ring and the libc call on an identical fixture are compared on result, failure, bytes at offsets, file position, stat fields, addresses and option values.",
                 ref="6/C13", category="exploration", engine="casex",
                 note="Trusted base: the Linux kernel of this sandbox (6.18) and libc as the oracle for part B; the ABI table in harness/src/c13.rs for part A. Exhaustive over the stated argument alphabets only."),
     "C14": dict(technique="bounded exhaustive enumeration of inputs against an independent reference (casex)",
-                text="Every provided Buf/BufMut/BufSlice/BufMutSlice implementation and wrapper (Vec, Box<[u8]>, String, Box<str>, static slices, both Cows, Arc<[u8]>, Arc<str>, StaticBuf, arrays and heterogeneous tuples of arity 1..8, LimitedBuf around each) over capacities {0,1,2,3,8,64}, fill levels, 12 limits incl. 2^32-1, 2^32, 2^32+1, 2^32+5 and usize::MAX, limits on and inside every member boundary, and every n for set_init: exposed pointer/length pairs inside the buffer's own memory, lengths/spare capacities agree with them, set_init(n) appends exactly the n bytes written front to back, limit never exceeded and decreased by n.",
+                text="Every provided Buf/BufMut/BufSlice/BufMutSlice implementation and wrapper (Vec, Box<[u8]>, String, Box<str>, static slices, both Cows, Arc<[u8]>, Arc<str>, StaticBuf, arrays and heterogeneous tuples of arity 1..8, LimitedBuf around each) over capacities {0,1,2,3,8,64}, fill levels, 12 limits incl. 2^32-1, 2^32, 2^32+1, 2^32+5 and usize::MAX, limits on and inside every member boundary, and every n for set_init, plus extend_from_slice with fewer, exactly as many and more bytes than fit: exposed pointer/length pairs inside the buffer's own memory, lengths/spare capacities agree with them, set_init(n) appends exactly the n bytes written front to back, limit never exceeded and decreased by n.",
                 ref="6/C14", category="exploration", engine="casex",
                 note="Pure functions; exhaustive over the stated alphabets. The crate-private SkipBuf/ReadNBuf wrappers are covered through C10's submissions."),
     "C15": dict(technique="explicit-state exploration of edit sequences on the real ReadBuf against a Vec<u8> reference (seqx, merged by contents)",
